@@ -16,6 +16,7 @@
   (Lemmas/ListRefine). Nothing is bounded.
 -/
 import RotoV.Lemmas.ListRefine
+import RotoV.Lemmas.ListNested
 
 namespace RotoV.C15
 open RotoV RotoV.ListM
@@ -354,6 +355,56 @@ theorem concat_terminates (sz n : Nat) (ops : List Op) (d a b : Nat) :
   (step_no_lock_fault (Inv_runSt ops (Inv_init sz n)) _).1
 
 example : (step 8 (runSt 8 (St.init 2) [.fromVec 0 [1, 2], .cloneH 1 0]) (.concat 0 0 1)).1 = .unit := by decide
+
+/-! ### nested lists: the element-wise `==` one level down
+
+An element of a `List<List<T>>` is an `ErasedList` handle — what a handle
+variable of the model is. `contains` / `index` / `==` of the outer list run the
+implementation's `==` on pairs of such handles (`containsN`, `indexN`, `eqN`:
+the loops of `RawList::contains`, `RawList::index` and slice equality over the
+element handles). -/
+
+/-- T4 for nested lists: in every reachable state, `outer.contains(&item)` over
+    any element handles (aliasing each other, aliasing the item, or distinct
+    lists) terminates without dead-lock, leaves the store as it was and answers
+    membership by contents. With the pinned tree's `List<T>::eq` this fails to
+    check (`typedEq_ok`): there every element distinct from the item
+    dead-locked. -/
+theorem nested_contains_terminates (sz n : Nat) (ops : List Op) (typed : Bool)
+    (elems : List Nat) (item : Nat) (cs : List (List Nat)) (ci : List Nat)
+    (hi : (runSt sz (St.init n) ops).contents item = some ci)
+    (he : allContents (runSt sz (St.init n) ops) elems = some cs) :
+    containsN sz typed (runSt sz (St.init n) ops) elems item =
+      (.bool (cs.contains ci), runSt sz (St.init n) ops) :=
+  containsN_ok (Inv_runSt ops (Inv_init sz n)) typed item hi elems cs he
+
+example : (containsN 8 true (runSt 8 (St.init 3) [.fromVec 0 [1], .fromVec 1 [2], .fromVec 2 [2]]) [0, 1] 2).1
+    = .bool true := by decide
+
+/-- `outer.index(&item)` likewise: the first element equal by contents -/
+theorem nested_index_terminates (sz n : Nat) (ops : List Op) (typed : Bool)
+    (elems : List Nat) (item : Nat) (cs : List (List Nat)) (ci : List Nat)
+    (hi : (runSt sz (St.init n) ops).contents item = some ci)
+    (he : allContents (runSt sz (St.init n) ops) elems = some cs) :
+    indexN sz typed (runSt sz (St.init n) ops) elems item 0 =
+      (.opt (firstIdxL ci cs 0), runSt sz (St.init n) ops) :=
+  indexN_ok (Inv_runSt ops (Inv_init sz n)) typed item hi elems cs 0 he
+
+example : (indexN 8 false (runSt 8 (St.init 3) [.fromVec 0 [1], .fromVec 1 [2], .fromVec 2 [2]]) [0, 1] 2 0).1
+    = .opt (some 1) := by decide
+
+/-- `==` of two nested lists: terminates, store unchanged, equality of the
+    contents of contents -/
+theorem nested_eq_terminates (sz n : Nat) (ops : List Op) (typed : Bool)
+    (as bs : List Nat) (ca cb : List (List Nat))
+    (ha : allContents (runSt sz (St.init n) ops) as = some ca)
+    (hb : allContents (runSt sz (St.init n) ops) bs = some cb) :
+    eqN sz typed (runSt sz (St.init n) ops) as bs =
+      (.bool (decide (ca = cb)), runSt sz (St.init n) ops) :=
+  eqN_ok (Inv_runSt ops (Inv_init sz n)) typed as bs ca cb ha hb
+
+example : (eqN 8 true (runSt 8 (St.init 3) [.fromVec 0 [1], .fromVec 1 [2], .fromVec 2 [2]]) [0, 1] [0, 2]).1
+    = .bool true := by decide
 
 /-! ### the defect of the pinned tree -/
 
